@@ -947,11 +947,12 @@ func codecOtherModes(mode string, rng *rand.Rand, stt *stats, w *evWriter, n int
 				}
 			}
 			muts := slotMutations(tree)
-			for i, m := range muts {
+			for _, m := range muts {
 				b, _ := json.Marshal(m)
-				impl := []string{"soft", "wrap"}[i%2]
-				for _, entry := range feedEntries {
-					emit(impl, entry, "slot", b)
+				for _, impl := range []string{"soft", "wrap"} { // the two implementations refuse ill-typed values differently
+					for _, entry := range feedEntries {
+						emit(impl, entry, "slot", b)
+					}
 				}
 			}
 			// unknown / missing type, unknown field, duplicate key
